@@ -201,6 +201,11 @@ def bddStep (b : BddSt) (l : String) (ws : List String) : Option (List String ×
       let sa := ((List.range tts.length).filter (fun i => TT.essential b.nv (tts.getD v 0) i)).length
       some ([l, s!"= {p} {a}", s!"~ {sp} {sa}"], b)
     | _, _, _ => some ([l, "= bad-request", "~ bad-request"], b)
+  -- conjunction of k variables: one model, 2^k - 1 counter-models, k paths to ⊥, one to ⊤, depth k
+  | ["qdeep", k] =>
+    match k.toNat? with
+    | some k => some ([l, s!"~ models {2 ^ k - 1} 1 paths {k} 1 depth {k}"], b)
+    | none => some ([l, "~ bad-request"], b)
   | ["dump"] => some ([l, s!"= {dumpTable b.s.nodes}"], b)
   | ["wfcheck", t] =>
     match parseTable t with
